@@ -1144,3 +1144,135 @@ Section FreshThms.
   Theorem ops_star_lang R : nfa_star A = Ok R -> L_nfa R =L l_star (L_nfa A).
   Proof. intro H. apply check_nfa_inv in H. destruct H as [-> _]. apply star_pre_lang. exact Hv. Qed.
 End FreshThms.
+
+(* ------------------------------------------------------------------ *)
+Section Reverse.
+  Variable A : nfa.
+  Hypothesis Hv : valid_nfa A = true.
+  Hypothesis Hk : rows_keyed A = true.
+  Let n := fresh (n_states A).
+  Let xs := n_states A ++ [n].
+  Let ER := xedge (reverse_rowof A n).
+
+  Lemma keyed_in q : In q (map fst (n_trans A)) -> In q (n_states A).
+  Proof.
+    intro H. apply in_map_iff in H. destruct H as [[q' r] [E Hin]]. simpl in E. subst q'.
+    unfold rows_keyed in Hk. rewrite forallb_forall in Hk. apply memb_In. apply (Hk _ Hin).
+  Qed.
+
+  Lemma edge_src_keyed p a x : n_edge A p a x -> In p (map fst (n_trans A)).
+  Proof. intro H. apply edge_assoc in H. destruct H as [r [E _]]. eapply assoc_Some_key. exact E. Qed.
+
+  Lemma edge_okeys p a x : n_edge A p a x -> In a (okeys A).
+  Proof.
+    intro H. apply (edge_sym_ok A Hv) in H. unfold okeys. destruct a as [s|]; [|left; reflexivity].
+    right. apply in_map. apply memb_In. exact H.
+  Qed.
+
+  Lemma rev_sources_In x a p : In p (rev_sources A x a) <-> n_edge A p a x.
+  Proof.
+    unfold rev_sources. rewrite filter_In. rewrite memb_In. split; [tauto|].
+    intro H. split; [eapply edge_src_keyed; exact H|exact H].
+  Qed.
+
+  Lemma reverse_edge_n a y : ER n a y <-> a = None /\ In y (n_finals A).
+  Proof.
+    unfold ER, xedge, reverse_rowof. rewrite Nat.eqb_refl. split.
+    - intros [r [Er Hy]]. inversion Er; subst r. unfold xtg in Hy. destruct a as [s|]; simpl in Hy; [destruct Hy|]. auto.
+    - intros [-> Hy]. eexists. split; [reflexivity|]. unfold xtg. simpl. exact Hy.
+  Qed.
+
+  Lemma reverse_edge x a y : In x (n_states A) -> (ER x a y <-> n_edge A y a x).
+  Proof.
+    intro Hx. unfold ER, xedge, reverse_rowof. pose proof (fr_neqb A x Hx) as En. fold n in En. rewrite En. split.
+    - intros [r [Er Hy]]. inversion Er; subst r. apply tab_tg in Hy. destruct Hy as [_ Hy].
+      apply rev_sources_In. exact Hy.
+    - intro H. eexists. split; [reflexivity|]. apply tab_tg. split; [|apply rev_sources_In; exact H].
+      apply filter_In. split; [eapply edge_okeys; exact H|]. apply nonempty_In. exists y. apply rev_sources_In. exact H.
+  Qed.
+
+  Lemma reverse_src_in x a y : n_edge A y a x -> In y (n_states A).
+  Proof. intro H. apply keyed_in. eapply edge_src_keyed. exact H. Qed.
+
+  Lemma reverse_path_bwd x w y : gpath ER x w y -> In x (n_states A) ->
+    In y (n_states A) /\ gpath (n_edge A) y (rev w) x.
+  Proof.
+    intro H. induction H as [x|x y1 z w He Hp IH|x a y1 z w He Hp IH]; intro Hx.
+    - split; [exact Hx|apply gp_refl].
+    - apply reverse_edge in He; [|exact Hx]. destruct (IH (reverse_src_in _ _ _ He)) as [Hz Hp'].
+      split; [exact Hz|]. eapply gpath_snoc_eps; eassumption.
+    - apply reverse_edge in He; [|exact Hx]. destruct (IH (reverse_src_in _ _ _ He)) as [Hz Hp'].
+      split; [exact Hz|]. simpl. eapply gpath_snoc_sym; eassumption.
+  Qed.
+
+  Lemma reverse_path_fwd y u x : gpath (n_edge A) y u x -> In y (n_states A) -> gpath ER x (rev u) y.
+  Proof.
+    intro H. induction H as [y|y y1 x u He Hp IH|y a y1 x u He Hp IH]; intro Hy.
+    - apply gp_refl.
+    - pose proof (edge_in_states A Hv _ _ _ He) as Hy1.
+      eapply gpath_snoc_eps; [apply IH; exact Hy1|]. apply reverse_edge; assumption.
+    - pose proof (edge_in_states A Hv _ _ _ He) as Hy1. simpl.
+      eapply gpath_snoc_sym; [apply IH; exact Hy1|]. apply reverse_edge; assumption.
+  Qed.
+
+  Lemma reverse_rows_ok : rows_ok xs (n_syms A) (reverse_rowof A n).
+  Proof.
+    intros x r Hx Er a l Hal. unfold reverse_rowof in Er. injection Er as Er. subst r.
+    destruct (Nat.eqb x n).
+    - destruct Hal as [Hal|[]]. inversion Hal; subst. split; [reflexivity|].
+      intros z Hz. apply (fr_in A). apply (fr_finals A Hv). exact Hz.
+    - pose proof (tab_entry _ _ _ _ Hal) as [Ha ->].
+      assert (Ha' : In a (okeys A)).
+      { unfold okeys. destruct (nonempty (rev_sources A x None)); [destruct Ha as [<-|Ha]; [left; reflexivity|]|];
+          right; apply filter_In in Ha; apply Ha. }
+      clear Ha. rename Ha' into Ha. split.
+      + unfold okeys in Ha. destruct Ha as [<-|Ha]; [reflexivity|].
+        apply in_map_iff in Ha. destruct Ha as [s [<- Hs]]. simpl. apply memb_In. exact Hs.
+      + intros z Hz. apply (fr_in A). apply rev_sources_In in Hz. eapply reverse_src_in. exact Hz.
+  Qed.
+
+  Lemma reverse_pre_valid : valid_nfa (reverse_pre A) = true.
+  Proof.
+    unfold reverse_pre. apply asm_valid.
+    - apply idn_inj.
+    - apply reverse_rows_ok.
+    - apply (fr_in_n A).
+    - intros z [<-|[]]. apply (fr_in A). apply (fr_init A Hv).
+    - apply (fr_NoDup A Hv).
+    - destruct (ops_valid_parts A Hv) as (_ & Hs & _). exact Hs.
+    - left. unfold reverse_rowof. discriminate.
+  Qed.
+
+  Lemma reverse_pre_lang : L_nfa (reverse_pre A) =L l_rev (L_nfa A).
+  Proof.
+    intro w. unfold reverse_pre. rewrite asm_lang.
+    2: apply idn_inj. 2: apply reverse_rows_ok. 2: apply (fr_in_n A).
+    2: intros z [<-|[]]; apply (fr_in A); apply (fr_init A Hv).
+    fold n. fold ER. unfold l_rev, L_nfa. split.
+    - intros [y [Hp [<-|[]]]]. inversion Hp as [x|x y1 z w' He Hp'|x a y1 z w' He Hp']; subst.
+      + exfalso. apply (fr_notin A (n_init A) (fr_init A Hv)). auto.
+      + apply reverse_edge_n in He. destruct He as [_ Hf].
+        apply reverse_path_bwd in Hp'; [|apply (fr_finals A Hv); exact Hf]. destruct Hp' as [_ Hp'].
+        exists y1. split; [apply nfa_path_gpath; exact Hp'|exact Hf].
+      + apply reverse_edge_n in He. destruct He as [He _]. discriminate.
+    - intros [f [Hp Hf]]. exists (n_init A). split; [|left; reflexivity].
+      eapply gp_eps; [apply reverse_edge_n; split; [reflexivity|exact Hf]|].
+      rewrite <- (rev_involutive w). apply reverse_path_fwd; [apply nfa_path_gpath; exact Hp|apply (fr_init A Hv)].
+  Qed.
+End Reverse.
+
+Section ReverseThms.
+  Variable A : nfa.
+  Hypothesis Hv : valid_nfa A = true.
+
+  Theorem ops_reverse_total : rows_keyed A = true -> exists R, nfa_reverse A = Ok R /\ valid_nfa R = true.
+  Proof.
+    intro Hk. exists (reverse_pre A). split; [|apply reverse_pre_valid; assumption].
+    unfold nfa_reverse. rewrite Hk. apply check_nfa_ok. apply reverse_pre_valid; assumption.
+  Qed.
+  Theorem ops_reverse_lang R : nfa_reverse A = Ok R -> L_nfa R =L l_rev (L_nfa A).
+  Proof.
+    unfold nfa_reverse. destruct (rows_keyed A) eqn:Hk; [|discriminate].
+    intro H. apply check_nfa_inv in H. destruct H as [-> _]. apply reverse_pre_lang; assumption.
+  Qed.
+End ReverseThms.
